@@ -8,7 +8,8 @@ import vlib
 TYPE_NAMES = ["Machine", "Package", "Die", "Core", "PU", "L1Cache", "L2Cache", "L3Cache", "L4Cache", "L5Cache",
               "L1iCache", "L2iCache", "L3iCache", "Group", "NUMANode", "MemCache", "Bridge", "PCIDev", "OSDev", "Misc"]
 GROUP, NUMANODE, MEMCACHE, BRIDGE, PCIDEV, OSDEV, MISC = 13, 14, 15, 16, 17, 18, 19
-WATCHDOG = "4"
+WATCHDOG = "10"      # seconds per behaviour; the heaviest one takes ~0.2 s
+MAX_CRASHES = "3"    # per recorder process: a defect that hangs thousands of cases must not take hours
 
 
 def okey(o):
@@ -232,6 +233,25 @@ def random_strings(rng, n):
     return res
 
 
+# every name literal hwloc_type_sscanf compares its input with
+MATCH_NAMES = ["storage", "block", "memory", "network", "ofed", "openfabrics", "dma", "gpu", "coproc", "co-processor", "osdev", "machine", "numanode", "node",
+               "memcache", "memory-side cache", "package", "socket", "die", "core", "pu", "misc", "bridge", "hostbridge", "pcibridge", "pcidev", "group",
+               "l1cache", "L2dcache", "l3icache", "os[gpu", "osdev[dma"]
+
+
+def byte_sweep(rng, per_byte):
+    """a complete (or partial) name followed by every possible byte value and something after it"""
+    res = []
+    for b in range(1, 256):
+        names = MATCH_NAMES if per_byte is None else rng.sample(MATCH_NAMES, per_byte)
+        for n in names:
+            w = n if rng.random() < 0.7 else n.upper() if rng.random() < 0.5 else n.capitalize()
+            res.append(w + chr(b) + rng.choice(["x", "x", "1", "]", chr(b), ""]))
+            if per_byte is None:
+                res.append(w[:rng.randint(1, len(w))] + chr(b) + "zz")
+    return res
+
+
 def run(ctx, replay=None):
     ctx.build_lib()
     exe = ctx.cc("hwv_types.c", "hwv_types")
@@ -262,8 +282,10 @@ def run(ctx, replay=None):
 
     # ---- (1) the model: attribute product x flag words, reference implementation checked against the relations ----
     if thorough:
-        G, unk = 4, [(), (7,), (63,), (8, 40), (31, 32), (7, 15, 23, 47, 62)]
-        tsn, asn, seps, varf, maxcut = list(range(64)), list(range(64)), [0, 1, 3], [0, 1, 2, 3], 12
+        G = 5
+        unk = [(), (7,), (63,), (8, 40), (31, 32), (7, 15, 23, 47, 62), (9,), (62, 63), (7, 8, 9, 10, 11, 12), tuple(range(7, 64))]
+        unk += [tuple(sorted(rng.sample(range(7, 64), rng.randint(1, 5)))) for _ in range(2)]
+        tsn, asn, seps, varf, maxcut = list(range(64)), list(range(64)), [0, 1, 3, 4], [0, 1, 2, 3, 4, 6, 8, 34], 16
     else:
         G, unk = 3, [(), (7,), (63,), (8, 40)]
         tsn = [a | b | c | d for a in (0, 1) for b in (0, 2) for c in (0, 4) for d in (0, 8)]
@@ -302,9 +324,9 @@ def run(ctx, replay=None):
         files[tag] = os.path.join(xmldir, "%s_%s.xml" % (x.name[:-4], hashlib.sha1(text.encode()).hexdigest()[:8]))
         open(files[tag], "w").write(text)
 
-    def ref(o):
+    def ref(o, k=None):
         tag, gps = where[okey(o)]
-        return "reset %s\nsel gp %d\n" % (files[tag], gps[rng.randrange(len(gps))])
+        return "reset %s\nsel gp %d\n" % (files[tag], gps[rng.randrange(len(gps)) if k is None else k % len(gps)])
 
     # ---- (3) behaviours: one per transition of the model ----
     behs, expected = [], {}
@@ -315,7 +337,11 @@ def run(ctx, replay=None):
         if a["a"] == "tsn":
             behs.append(ref(h[0]["o"]) + "tsn %d\n" % a["f"])
         elif a["a"] == "asn":
-            behs.append(ref(h[0]["o"]) + "asn %d %d\n" % (a["f"], a["sep"]))
+            if thorough:     # every instance of the descriptor (they differ in sizes, associativity, infos); one reset per behaviour
+                tag, gps = where[okey(h[0]["o"])]
+                behs.append("reset %s\n" % files[tag] + "".join("sel gp %d\nasn %d %d\n" % (g, a["f"], a["sep"]) for g in gps))
+            else:
+                behs.append(ref(h[0]["o"]) + "asn %d %d\n" % (a["f"], a["sep"]))
         elif a["a"] == "var":
             behs.append(ref(h[0]["o"]) + "tsn %d 6\nscan %s\n" % (h[1]["f"], hexs(a["s"])))
         elif a["a"] == "tstr":
@@ -338,12 +364,10 @@ def run(ctx, replay=None):
     bflags = [0, 2, 4, 9, 1, 8, 6, 3] if thorough else [0, 2, 4, 9]
     for p in bundled:
         big = os.path.getsize(p) > 300000
-        fl = bflags if (thorough or not big) else bflags[:2]
-        behs.append("reset %s\nsel all\n" % p + "".join("tsn %d\n" % f for f in fl)
-                    + "".join("asn %d %d %d\n" % (f, 1 + (i % 2) * 2, 0 if thorough and not big else 24) for i, f in enumerate(fl))
-                    + "".join("levels %d\n" % f for f in fl))
+        for i, f in enumerate(bflags if (thorough or not big) else bflags[:2]):
+            behs.append("reset %s\nsel all\ntsn %d\nasn %d %d %d\nlevels %d\n" % (p, f, f, 1 + (i % 2) * 2, 0 if thorough and not big else 24, f))
     # hostile strings for hwloc_type_sscanf
-    strs = random_strings(rng, 6000 if thorough else 600)
+    strs = random_strings(rng, 20000 if thorough else 600) + byte_sweep(rng, None if thorough else 3)
     for i in range(0, len(strs), 25):
         behs.append("reset -\n" + "".join("scan %s\n" % hexs(s) for s in strs[i:i + 25]))
     # a level that mixes unified and data caches of one depth (hwloc.h: "same for all objects of a level")
@@ -351,6 +375,7 @@ def run(ctx, replay=None):
     for f in (0, 2):
         behs.append("reset %s\nlevels %d\n" % (files["mixed"], f))
 
+    assert all(b.startswith("reset ") and b.count("\nreset ") == 0 for b in behs)
     ctx.samples = [behs[0], behs[n_model // 2], behs[n_model - 1], behs[-2]]
     ctx.samples = [s.replace(xmldir, "@XML@") for s in ctx.samples]
 
@@ -358,7 +383,7 @@ def run(ctx, replay=None):
     tf = record_parallel(ctx, exe, behs, 8)
     check_vocabulary(tf)
     rejs = ctx.validate("TraceTypes", tf, max_rej=3)
-    rejs = rejs[:10]
+    rejs = rejs[:6]
     if rejs:
         # keep the generated inputs of the replays
         os.makedirs(REPLAY_XML, exist_ok=True)
@@ -375,7 +400,7 @@ def run(ctx, replay=None):
         rule="behaviours = one per transition of the bounded client model (every object of the reachable attribute product x flag word for "
              "type_snprintf / attr_snprintf at every buffer size 0..needed+1, text variants, type_string of every type, every ordered pair of "
              "compare_types, kind predicates), plus every object and level of every bundled XML input, XML inputs with invalid bridge types and "
-             "v2 OS-device types, and seeded hostile strings for hwloc_type_sscanf; a behaviour is non-trivial when it performs at least one API call; "
+             "v2 OS-device types, and hostile strings for hwloc_type_sscanf (seeded random ones and every byte value after every name literal); a behaviour is non-trivial when it performs at least one API call; "
              "each was run on the rebuilt library (ASan+UBSan, guard bytes) and validated by TLC against the relations of Types.tla",
         assumptions=["the integer values of hwloc_obj_type_t, the cache/bridge/osdev enums, the snprintf flags and the special depths are those of the pinned include/hwloc.h",
                      "attribute values are those reachable by loading XML (v3, plus the v2 OS-device remapping); group depths above %d are not explored" % (G - 1),
@@ -430,7 +455,11 @@ def record_parallel(ctx, exe, behs, nproc):
                 f.write(b if i % nproc == p else "reset !\n")
         paths.append(bf)
     with cf.ThreadPoolExecutor(max_workers=nproc) as ex:
-        list(ex.map(lambda bf: ctx.record(exe, bf, bf + ".ndjson", env={"HWV_WATCHDOG": WATCHDOG}, timeout=3000), paths))
+        outs = list(ex.map(lambda bf: ctx.record(exe, bf, bf + ".ndjson", env={"HWV_WATCHDOG": WATCHDOG, "HWV_MAX_CRASHES": MAX_CRASHES}, timeout=3000), paths))
+    for o in outs:
+        for line in o.split("\n"):
+            if "stopping after" in line:
+                ctx.notes.append("a recorder stopped early (crash cap): " + line.strip())
     # merge by behaviour index
     per = {}
     for p, bf in enumerate(paths):
